@@ -411,6 +411,23 @@ func runChains(run *ev.Run, v *env, depth3 int, exhaustive3 bool) {
 			}
 		}
 	}
+	// self-calls: a contract calling its own methods through System.Contract.Call
+	// (the first hop does nothing itself, so every effect below belongs to the
+	// second one): safety and flags of the called method apply as for any callee
+	for f1 := callflag.CallFlag(0); f1 <= callflag.All; f1++ {
+		if f1&callflag.ReadOnly != callflag.ReadOnly {
+			continue
+		}
+		for f2 := callflag.CallFlag(0); f2 <= callflag.All; f2++ {
+			for _, m1 := range []string{"probe", "tryProbe"} {
+				for _, m2 := range chainMethods {
+					for _, a := range acts {
+						cells = append(cells, cell{callflag.All, []hop{{0, m1, f1}, {0, m2, f2}}, a, 0})
+					}
+				}
+			}
+		}
+	}
 	r := rng.New(0xc16c)
 	for range depth3 {
 		hs := make([]hop, 3)
